@@ -1,6 +1,8 @@
 import TapkeeVerif.Model.DijkstraFib
 import TapkeeVerif.Proofs.DijkstraLoop
 import TapkeeVerif.Proofs.FibHeapRefine
+import TapkeeVerif.Proofs.FibHeapOob
+import TapkeeVerif.Proofs.DijkstraTerm
 import Mathlib.Algebra.Order.Ring.Int
 /-!
 Forward simulation: the Fibonacci-heap build driven by the *concrete* heap model of property C16
@@ -395,5 +397,181 @@ theorem fibRow_refines {P : Problem Int} {k : Nat} (hw : ∀ a b, 0 ≤ P.w a b)
       obtain ⟨ch, σA', hloop, hdist⟩ := fibLoop_sim hw (fuelFor P.N k) 0 _ σF' _ (fibInit_sim hs hs) hg hl
       exact ⟨ch, by simp [row, hs, hloop, hdist]⟩
   · simp [hs] at h
+
+/-! ### progress: the concrete-heap build never fails -/
+
+/-- the consolidation array is large enough for the heap's capacity (true of the constructor's `Dn`: C16 `dnOf_spec`);
+    preserved by every heap operation -/
+def DnOk (h : Heap) : Prop := h.cap < FibHeap.fib (h.dn + 2)
+
+/-- C16 `no_oob`, for one `extract_min` on an invariant heap -/
+theorem extractMin_ok {h : Heap} (hinv : FibHeap.Inv h) (hdn : DnOk h) : ∃ pr, h.extractMin = .ok pr := by
+  cases hex : h.extractMin with
+  | ok pr => exact ⟨pr, rfl⟩
+  | error e =>
+    exfalso
+    obtain ⟨_, m, rs, hr, hc⟩ := FibHeap.extractMin_error hinv hex
+    have hsz := hinv.size_le_cap
+    have hE := (FibHeap.extractRest_entries hr).length_eq
+    simp only [List.length_cons] at hE
+    exact FibHeap.consolidate_ne_none h.cap h.dn _ (FibHeap.extractRest_good hinv hr) (by omega) hdn hc
+
+theorem fibEdge_total {P : Problem Int} {u x : Nat} (hu : u < P.N) (hx : x < P.N) {σF : FSt P.N}
+    (hinv : FibHeap.Inv σF.h) (hdn : DnOk σF.h) :
+    ∃ σF', fibEdge P.w u hu x hx σF = .ok σF' ∧ DnOk σF'.h := by
+  unfold fibEdge
+  by_cases hsx : σF.s[x] = false
+  · rw [if_pos hsx]
+    cases hdu : σF.dist[u] with
+    | none => exact ⟨σF, rfl, hdn⟩
+    | some du =>
+      dsimp only
+      by_cases hlt : ltDist (du + P.w u x) σF.dist[x] = true
+      · rw [if_pos hlt]
+        by_cases hfx : σF.f[x] = true
+        · rw [if_pos hfx]
+          obtain ⟨h', hd, _, hcap, hdn', _⟩ := FibHeap.decreaseKey_spec hinv (x : Int) (du + P.w u x)
+          refine ⟨{ σF with dist := σF.dist.set x (some (du + P.w u x)), h := h' }, by simp only [hd], ?_⟩
+          show DnOk h'
+          unfold DnOk
+          rw [hcap, hdn']
+          exact hdn
+        · rw [if_neg hfx]
+          refine ⟨_, rfl, ?_⟩
+          show DnOk (σF.h.insert _ _)
+          unfold DnOk Heap.insert
+          dsimp only
+          split
+          · exact hdn
+          · split <;> exact hdn
+      · rw [if_neg hlt]
+        exact ⟨σF, rfl, hdn⟩
+  · rw [if_neg hsx]
+    exact ⟨σF, rfl, hdn⟩
+
+theorem fibEdges_total {P : Problem Int} {k s₀ u : Nat} (hwf : WF P k) (hu : u < P.N) :
+    ∀ (is : List Nat) (σF : FSt P.N) (σA : St Int P.N), (∀ i ∈ is, i < k) → Sim σF σA → DnOk σF.h →
+      Good P k s₀ .indexed (pendOf P u is) σA → σA.S u = true →
+      ∃ σF' σA', fibEdges P u hu is σF = .ok σF' ∧ edges P .indexed u hu is σA = .ok σA' ∧ Sim σF' σA' ∧ DnOk σF'.h := by
+  intro is
+  induction is with
+  | nil => intro σF σA _ hsim hdn _ _; exact ⟨σF, σA, rfl, rfl, hsim, hdn⟩
+  | cons i is ih =>
+    intro σF σA hk hsim hdn hg hSu
+    obtain ⟨x, hn, hx⟩ := hwf u hu i (hk i List.mem_cons_self)
+    obtain ⟨σF₁, hfe, hdn₁⟩ := fibEdge_total (P := P) hu hx hsim.inv hdn
+    have hsim₁ := fibEdge_sim hu hx hsim (hg.2 rfl) hfe
+    have hedge : Edge P k u x := ⟨hu, hx, i, hk i List.mem_cons_self, hn⟩
+    have hg₁ := edge_good hu hx hg (pendOf_step hn) hedge hSu
+    have hS := edge_S .indexed P.w hu hx σA u
+    obtain ⟨σF', σA', hF, hA, hsim', hdn'⟩ := ih σF₁ _ (fun j hj => hk j (List.mem_cons_of_mem _ hj)) hsim₁ hdn₁ hg₁
+      (by simp only [edge] at hS; rw [hS]; exact hSu)
+    refine ⟨σF', σA', ?_, ?_, hsim', hdn'⟩
+    · simp only [fibEdges, hn, hx, dite_true, hfe]
+      exact hF
+    · simp only [edges, hn, hx, dite_true]
+      exact hA
+
+/-- if the abstract loop succeeds for every choice stream, the concrete-heap loop succeeds -/
+theorem fibLoop_total {P : Problem Int} {k s₀ : Nat} (hwf : WF P k) (hw : ∀ a b, 0 ≤ P.w a b) :
+    ∀ (fuel t : Nat) (σF : FSt P.N) (σA : St Int P.N), Sim σF σA → DnOk σF.h →
+      Good P k s₀ .indexed (fun _ _ => False) σA →
+      (∀ ch : Nat → Nat, ∃ σA', loop P .indexed k ch fuel t σA = .ok σA') →
+      ∃ σF', fibLoop P k fuel σF = .ok σF' := by
+  intro fuel
+  induction fuel with
+  | zero =>
+    intro t σF σA _ _ _ hall
+    obtain ⟨_, h⟩ := hall (fun _ => 0)
+    simp [loop] at h
+  | succ fuel ih =>
+    intro t σF σA hsim hdn hg hall
+    simp only [fibLoop]
+    have hlen : σA.q.length = σF.h.numNodes := by rw [hsim.inv.numNodes]; exact hsim.abs.length_eq
+    by_cases hempty : σF.h.numNodes = 0
+    · exact ⟨σF, by simp [hempty]⟩
+    · simp only [hempty, if_false]
+      obtain ⟨⟨h', r⟩, hex⟩ := extractMin_ok hsim.inv hdn
+      have hstep : FibHeap.step σF.h .extract = .ok (h', .extracted h'.numNodes r) := by
+        simp [FibHeap.step, hex, bind, Except.bind, pure, Except.pure]
+      obtain ⟨hinv', hcap', hdn', s', hsc, habs'⟩ := FibHeap.step_ok hsim.inv hsim.abs hstep
+      cases r with
+      | none =>
+        exfalso
+        have : σA.q = [] := stepCheck_extract_none hsc
+        rw [this] at hlen
+        simp at hlen
+        omega
+      | some uk =>
+        obtain ⟨u, key⟩ := uk
+        simp only [hex]
+        obtain ⟨hget, hmin, rfl⟩ := stepCheck_extract_some hsc
+        have hmem : (u, key) ∈ σA.q := FibHeap.Spec.get_some_mem hget
+        have hmin' : ∀ e ∈ σA.q, key ≤ e.2 := (FibHeap.Spec.isMin_iff σA.q key).mp hmin
+        obtain ⟨l₁, l₂, hq, h1, h2⟩ := split_of_mem_nodup hmem hsim.nodup
+        obtain ⟨c, hc⟩ := popMin_complete' hq (fun e he => hmin' e he)
+        have hDu : σA.D u = some key := (hg.2 rfl).keyEq u key hmem
+        have hu : u < P.N := St.lt_of_D_some hDu
+        simp only [hu, dite_true]
+        have hsim₁ : Sim { σF with h := h', s := σF.s.set u true hu, f := σF.f.set u false hu }
+            { σA with q := l₁ ++ l₂, s := σA.s.set u true hu, f := σA.f.set u false hu } :=
+          ⟨hsim.dist, by simp [hsim.s], by simp [hsim.f], hinv',
+            by
+              have : Spec.erase σA.q u = l₁ ++ l₂ := by rw [hq]; exact erase_split h1 h2
+              show FibHeap.Abs (l₁ ++ l₂) h'
+              rw [← this]
+              exact habs',
+            by rw [hcap']; exact hsim.cap⟩
+        have hdn₁ : DnOk h' := by unfold DnOk; rw [hcap', hdn']; exact hdn
+        have hinv₁ := hg.1.settle hw hu hq (fun e he => hmin' e he) hDu (σA.f.set u false hu)
+        have hinv₁' : Inv P k s₀ (pendOf P u (List.range k))
+            { σA with q := l₁ ++ l₂, s := σA.s.set u true hu, f := σA.f.set u false hu } :=
+          { hinv₁ with
+            relaxed := by
+              intro a b hSa hedge hnp
+              apply hinv₁.relaxed a b hSa hedge
+              intro hau
+              apply hnp
+              obtain ⟨_, _, i, hi, hnb⟩ := hedge
+              subst hau
+              exact ⟨rfl, i, List.mem_range.mpr hi, hnb⟩ }
+        have hSu : St.S { σA with q := l₁ ++ l₂, s := σA.s.set u true hu, f := σA.f.set u false hu } u = true := by
+          rw [St.S_set_s { σA with q := l₁ ++ l₂, f := σA.f.set u false hu } hu true u]
+          simp
+        have hg₁ : Good P k s₀ .indexed (pendOf P u (List.range k))
+            { σA with q := l₁ ++ l₂, s := σA.s.set u true hu, f := σA.f.set u false hu } :=
+          ⟨hinv₁', fun _ => settle_idx (hg.2 rfl) hu hq⟩
+        obtain ⟨σF₁, σA₁, hF, hA, hsim', hdn'⟩ := fibEdges_total (s₀ := s₀) hwf hu (List.range k) _ _
+          (fun i hi => List.mem_range.mp hi) hsim₁ hdn₁ hg₁ hSu
+        obtain ⟨hg₁', _⟩ := edges_good (s₀ := s₀) hu (List.range k) _ σA₁ (fun i hi => List.mem_range.mp hi)
+          hg₁ hSu hA
+        simp only [hF]
+        apply ih (t + 1) σF₁ σA₁ hsim' hdn' hg₁'
+        intro ch'
+        obtain ⟨σA', hl⟩ := hall (fun n => if n = t then c else ch' n)
+        simp only [loop, if_true, hc, hu, dite_true] at hl
+        have hns : ¬ (Disc.indexed = Disc.lazy ∧ gtDist key σA.dist[u] = true) := fun h => Disc.noConfusion h.1
+        rw [if_neg hns, hA] at hl
+        simp only at hl
+        rw [loop_congr P .indexed k (fun n => if n = t then c else ch' n) ch' fuel (t + 1) σA₁
+          (fun n hn => by simp; intro h; omega)] at hl
+        exact ⟨σA', hl⟩
+
+/-- **The concrete-heap build runs to completion** on well-formed lists with non-negative weights: no error of the
+    heap model (C16 `no_oob`, `no_corrupt` per operation), no out-of-bounds index, fuel not exhausted. -/
+theorem fibRow_ok {P : Problem Int} {k : Nat} (hwf : WF P k) (hw : ∀ a b, 0 ≤ P.w a b) {src : Nat} (hs : src < P.N) :
+    ∃ r, fibRow P k src src = .ok r := by
+  have hg : Good P k src .indexed (fun _ _ => False) (initSt src hs src hs) :=
+    ⟨initSt_inv hs hs, fun _ => initSt_idx hs⟩
+  have hdn : DnOk (fibInit src hs src hs).h := by
+    show DnOk ((Heap.init P.N).insert (src : Int) 0)
+    unfold DnOk Heap.insert
+    dsimp only
+    split
+    · exact FibHeap.dnOf_spec P.N
+    · split <;> exact FibHeap.dnOf_spec P.N
+  obtain ⟨σF', hl⟩ := fibLoop_total hwf hw (fuelFor P.N k) 0 _ _ (fibInit_sim hs hs) hdn hg (fun ch =>
+    loop_ok hwf hw ch (fuelFor P.N k) 0 _ hg (by rw [initSt_phi]; unfold fuelFor; omega))
+  exact ⟨σF'.dist, by simp [fibRow, hs, hl]⟩
 
 end TapkeeVerif.Dijkstra
